@@ -33,9 +33,28 @@ def corpus(tier, seed):
     return EL.add_slow_slice(rng, inputs, 100 if q else 1000)
 
 
+def sub_ulp_tiebreaks(res, traces, verdicts, byid):
+    """an exact tie on the deciding tally whose borda tiebreak scores differ by less than one double-ulp (one point in 5 * 2^53): the tiebreak
+    "orders the tied candidates by that score" -- deterministically; compared with the exact-fraction reading of Scoring!Positional (c04)"""
+    from . import c04
+    from ..common import fork_pool
+    if res.replayed:
+        return
+    rng = random.Random(1077 + res.seed)
+    ins = [i for i in c04.wide_weight_inputs(rng, 400 if res.tier == "quick" else 6000) if len(i["ballots"]) == 3 and i["ballots"][2]["w"] == [1, 1]]
+    n = 0
+    with fork_pool(16) as pool:
+        for vs in pool.imap_unordered(c04.wide_weight_work, ins, chunksize=8):
+            n += 1
+            for sig, what, inp in vs:
+                if "Tiebreak" in sig:
+                    res.violation(sig, what, {"input": inp})
+    res.notes["python_compared"] = res.notes.get("python_compared", 0) + n
+
+
 def run(tier, seed, replay=None):
     return EL.standard_run(
-        PID, tier, seed, replay, MC, corpus, wide={},
+        PID, tier, seed, replay, MC, corpus, wide={}, extra=sub_ulp_tiebreaks,
         nontrivial=lambda t: any(e.get("tiebreaks") for e in t["events"]),
         role3={"quick": [dict(family="oneshot", max_ballots=1, max_w=2), dict(family="composite", max_ballots=2, max_w=1)], "thorough": [dict(family="oneshot", max_ballots=2, max_w=1), dict(family="tiered", max_ballots=3, max_w=2)]},
         rule_text="role 1: TLC checks on the bounded model that a step has probability label < 1 only if the round it appends records a "
